@@ -1,13 +1,45 @@
 (* C02 — blocks always process and registered invariants hold at every height
-   (partial: see DESIGN.md 7.2).
-   Generic part: a chain whose begin blocker completes from every state satisfying
-   the module invariants, and whose accepted transactions preserve them, never
-   halts and satisfies the invariants after every block — for every list of blocks;
-   and this composes module by module.  Instances: the module models whose
-   invariant theorems exist (listed below; the list grows with the models). *)
-From Kava Require Import Base.Prelude Model.World Proofs.World.
-From Kava Require Import Model.Precisebank Proofs.Precisebank.
+   (partial: see DESIGN.md 7.2 and the end of this header).
 
+   1. Generic part (Model/World.v, Model/WorldG.v).  A chain component is a state machine with a begin
+      blocker, operations and an end blocker; a failing operation leaves the state unchanged, a failing
+      blocker halts the chain.  If from every state satisfying the invariant the blockers complete on every
+      good block input and accepted good operations preserve the invariant, then NO LIST OF BLOCKS halts the
+      chain and the invariant holds after every block ([C02_component_never_halts], by induction over the block
+      list); components compose side by side, n-ary ([C02_components_compose]).
+   2. One instance per Kava module model (Proofs/World<Module>.v; each file says, conjunct by conjunct, which
+      registered crisis invariant the invariant models, what every guard is and what discharges it):
+        with a begin / end blocker: committee, community+kavadist (with x/mint as oracle), auction, cdp, bep3,
+          hard, incentive (begin), pricefeed (end);
+        without: swap, evmutil, savings, liquid, earn, precisebank.
+      Where a blocker CAN halt from an invariant-satisfying state the witness is a [_refuted] theorem and the
+      guard that excludes it is spelled out in the instance: auction (block time at types.DistantFuture),
+      cdp (DebtAuctionLot > DebtAuctionThreshold, accepted by Params.Validate), hard (an interest-rate model
+      accepted by Params.Validate whose APY makes APYToSPY fail); kavadist's partner-reward shortfall is
+      C19_infra_shortfall_panics.
+   3. [C02_kava_modules_never_halt]: the product of all components in the order of SetOrderBeginBlockers.
+      The modules are modelled SIDE BY SIDE, each over its own abstract bank: coupling through the shared
+      x/bank and through hooks is NOT proved compositionally; it is observed by the C02 driver (full
+      BeginBlock / DeliverTx / EndBlock / Commit on the real app with every crisis invariant route asserted
+      after every block).  The bank, staking, distribution and gov invariants are SDK code: observed only.
+   4. [C02_product_order_is_kava_subsequence]: the product order is the Kava sub-sequence of the begin-blocker
+      table of Model/WorldOrder.v, which ./check compares with app/app.go on every run (tools/blockorder). *)
+From Coq Require Import String.
+From Kava Require Import Base.Prelude Model.World Proofs.World.
+From Kava Require Import Model.WorldG Model.WorldOrder Proofs.WorldG.
+From Kava Require Model.Precisebank Proofs.Precisebank.
+From Kava Require Model.Committee Model.Emissions Model.Auction Model.Cdp Model.Bep3 Model.Hard Model.Incentive
+  Model.Swap Model.Pricefeed Model.Evmutil Model.Savings Model.Staking Model.Liquid Model.Earn.
+From Kava Require Base.Dec Proofs.CdpCust Proofs.Auction Proofs.Bep3 Proofs.Incentive Proofs.Evmutil Proofs.Savings Proofs.Liquid Proofs.Earn
+  Proofs.Swap Proofs.Pricefeed.
+From Kava Require Proofs.WorldCommittee Proofs.WorldEmissions Proofs.WorldAuction Proofs.WorldCdpLive Proofs.WorldCdp
+  Proofs.WorldBep3 Proofs.WorldHard Proofs.WorldIncentive Proofs.WorldSwap Proofs.WorldPricefeed Proofs.WorldEvmutil
+  Proofs.WorldSavings Proofs.WorldLiquid Proofs.WorldEarn Proofs.WorldPrecisebank Proofs.WorldKava.
+Local Open Scope string_scope.
+
+(** * 1. the generic theorems *)
+
+(* first form (no guards, no end blocker) *)
 Theorem C02_chain_never_halts :
   forall (S B O : Type) (begin_block : S -> B -> outcome S unit) (tx : S -> O -> outcome S unit) (Inv : S -> Prop),
   (forall s b, Inv s -> exists s', begin_block s b = Ok s' tt /\ Inv s') ->
@@ -27,18 +59,314 @@ Theorem C02_modules_compose :
 Proof. intros. eapply product_no_halt; eauto. Qed.
 Print Assumptions C02_modules_compose.
 
-(* Instance: precisebank has no begin blocker; its five registered invariants
-   (reserve-backs-fractions, balance-remainder-total, valid-fractional-balances,
-   valid-remainder-amount, fractional-denom-not-in-bank) are the conjuncts of
-   Precisebank.Inv and hold after every block of any chain of precisebank calls. *)
-Definition pb_begin (e : env) (s : state) (_ : unit) : outcome state unit := Ok s tt.
+(* general form: begin blocker, operations, end blocker, with a guard on block inputs and on accepted
+   operations ([good_blocks], Model/WorldG.v).  [module_ok M] is the pair of obligations "the blockers complete
+   from every invariant state on good inputs and re-establish the invariant" / "accepted good operations
+   preserve the invariant". *)
+Theorem C02_component_never_halts :
+  forall M, module_ok M ->
+  forall blks s, m_Inv M s -> good_blocks M s blks ->
+  exists s', run_blocksG M s blks = Some s' /\ m_Inv M s'.
+Proof. exact module_never_halts. Qed.
+Print Assumptions C02_component_never_halts.
+
+(* n components side by side, blockers in list order *)
+Theorem C02_components_compose :
+  forall l, all_ok l -> module_ok (mcompose l) /\ m_names (mcompose l) = flat_map m_names l.
+Proof. intros l H. split; [apply mcompose_ok; exact H|apply mcompose_names]. Qed.
+Print Assumptions C02_components_compose.
+
+(* what "side by side" means, exactly: the product chain reaches (s1', s2') if and only if component 1 reaches
+   s1' on its projection of the history (its block inputs, the operations addressed to it) and component 2
+   reaches s2' on its projection — the components of a product do not influence one another.  (This is the
+   precise sense in which cross-module coupling is outside the composed theorem.) *)
+Theorem C02_components_are_independent :
+  forall M1 M2 blks s1 s2,
+  run_blocksG (mprod M1 M2) (s1, s2) blks
+  = both (run_blocksG M1 s1 (blks1 M1 M2 blks)) (run_blocksG M2 s2 (blks2 M1 M2 blks)).
+Proof. exact run_blocks_prod. Qed.
+Print Assumptions C02_components_are_independent.
+
+(* a component without guards: every list of blocks is good *)
+Theorem C02_no_guard_all_blocks_good :
+  forall M, (forall s b, m_goodB M s b) -> (forall s o, m_goodT M s o) -> forall blks s, good_blocks M s blks.
+Proof. exact good_blocks_True. Qed.
+Print Assumptions C02_no_guard_all_blocks_good.
+
+(** * 2a. modules with a begin or end blocker *)
+
+(* x/committee: BeginBlocker = ProcessProposals (enactment panics on a handler error).  Invariant: stored
+   parameter documents are objects/arrays of objects; every stored proposal passed the handler dry run at
+   submission.  Guard: block time monotone.  No assumption on what governance installs as permissions. *)
+Theorem C02_committee_never_halts :
+  forall sls blks s, WorldCommittee.committee_Inv s -> good_blocks (WorldCommittee.committee_M sls) s blks ->
+  exists s', run_blocksG (WorldCommittee.committee_M sls) s blks = Some s' /\ WorldCommittee.committee_Inv s'.
+Proof. intros sls. exact (module_never_halts _ (WorldCommittee.committee_M_ok sls)). Qed.
+Print Assumptions C02_committee_never_halts.
+
+(* x/community ; (x/mint) ; x/kavadist.  Guard: time monotone and positive, oracle values >= 0, and the partner
+   rewards of the block covered by the infrastructure coins minted in it ([covered]; without it the chain
+   halts: C19_infra_shortfall_panics). *)
+Theorem C02_community_kavadist_never_halt :
+  forall blks s, WorldEmissions.EInv s -> good_blocks WorldEmissions.emissions_M s blks ->
+  exists s', run_blocksG WorldEmissions.emissions_M s blks = Some s' /\ WorldEmissions.EInv s'.
+Proof. exact (module_never_halts _ WorldEmissions.emissions_M_ok). Qed.
+Print Assumptions C02_community_kavadist_never_halt.
+
+Theorem C02_kavadist_guard_vacuous_without_partners :
+  forall t m c s, Model.Emissions.kd_partners s = [] -> WorldEmissions.covered t m c s.
+Proof. exact WorldEmissions.covered_no_partners. Qed.
+Print Assumptions C02_kavadist_guard_vacuous_without_partners.
+
+(* x/auction: BeginBlocker = CloseExpiredAuctions (any payout error panics).  Invariant: custody
+   ("module-account"), index ("valid-index"), valid auctions ("valid-auctions") — defined in
+   keeper/invariants.go but NOT registered by the AppModule — plus non-negative balances and payable winners.
+   Guards: block time before DistantFuture; callers' guarantees and "the bidder is a message signer". *)
+Theorem C02_auction_never_halts :
+  forall e, WorldAuction.env_ok e ->
+  forall blks s, WorldAuction.InvW e s -> good_blocks (WorldAuction.auction_M e) s blks ->
+  exists s', run_blocksG (WorldAuction.auction_M e) s blks = Some s' /\ WorldAuction.InvW e s'.
+Proof. intros e H. exact (module_never_halts _ (WorldAuction.auction_M_ok e H)). Qed.
+Print Assumptions C02_auction_never_halts.
+
+(* the block guard of x/auction is needed *)
+Theorem C02_auction_begin_block_refuted_distant_future :
+  exists e s t, WorldAuction.env_ok e /\ WorldAuction.InvW e s /\ ~ (t < Model.Auction.DISTANT_FUTURE)%Z /\
+                Model.Auction.begin_block e s t = Panic.
+Proof. exact WorldAuction.auction_begin_block_refuted_distant_future. Qed.
+Print Assumptions C02_auction_begin_block_refuted_distant_future.
+
+(* x/cdp: BeginBlocker (status, interest accumulation, risky-cdp synchronisation, liquidation with seizure and
+   collateral auctions, surplus and debt auctions; every error panics).  Invariant Inv5 = C04's indexes and
+   custody + non-negative balances + positive deposits + interest-factor sanity + accrual times <= clock.
+   Guard: dt >= 0.  Environment: [env_ok] includes DebtAuctionLot <= DebtAuctionThreshold. *)
+Theorem C02_cdp_never_halts :
+  forall e, WorldCdpLive.env_ok e -> WorldCdp.env_dom e ->
+  forall blks s, WorldCdp.Inv5 e s -> good_blocks (WorldCdp.cdp_M e) s blks ->
+  exists s', run_blocksG (WorldCdp.cdp_M e) s blks = Some s' /\ WorldCdp.Inv5 e s'.
+Proof. intros e H1 H2. exact (module_never_halts _ (WorldCdp.cdp_M_ok e H1 H2)). Qed.
+Print Assumptions C02_cdp_never_halts.
+
+(* with DebtAuctionLot > DebtAuctionThreshold (both accepted by Params.Validate) and a liquidator debt balance
+   between the two, the cdp begin blocker panics (reproduced on the real keepers) *)
+Theorem C02_cdp_begin_block_refuted_params :
+  exists e s b,
+    (* every environment hypothesis of the instance except DebtAuctionLot <= DebtAuctionThreshold ... *)
+    Proofs.CdpCust.env_wf e /\ Proofs.CdpCust.params_ok e /\
+    (forall t cp, Model.Cdp.get_cp e t = Some cp -> 0 < Model.Cdp.cp_asize cp /\ Base.Dec.PREC <= Model.Cdp.cp_fee cp)%Z /\
+    (0 < Model.Cdp.debt_thr e)%Z /\ (0 < Model.Cdp.debt_lot e)%Z /\ (0 < Model.Cdp.sur_thr e)%Z /\ (0 < Model.Cdp.sur_lot e)%Z /\
+    WorldCdp.env_dom e /\
+    (* ... the invariant, a good block, and the begin blocker panics *)
+    WorldCdp.Inv5 e s /\ m_goodB (WorldCdp.cdp_M e) s b /\ m_bb (WorldCdp.cdp_M e) s b = Panic.
+Proof. exact WorldCdp.cdp_begin_block_refuted_params. Qed.
+Print Assumptions C02_cdp_begin_block_refuted_params.
+
+(* x/bep3: BeginBlocker (time-based limits, expiry, deletion) is total.  Invariant = C13's.  Guard: the module
+   account is not the sender of a create. *)
+Theorem C02_bep3_never_halts :
+  forall e, Proofs.Bep3.env_wf e ->
+  forall blks s, Proofs.Bep3.Inv e s -> good_blocks (WorldBep3.bep3_M e) s blks ->
+  exists s', run_blocksG (WorldBep3.bep3_M e) s blks = Some s' /\ Proofs.Bep3.Inv e s'.
+Proof. intros e H. exact (module_never_halts _ (WorldBep3.bep3_M_ok e H)). Qed.
+Print Assumptions C02_bep3_never_halts.
+
+(* x/hard: BeginBlocker = ApplyInterestRateUpdates (an error panics).  Invariant: reserve factors in [0,1] in
+   store and params, totals non-negative.  Guards: oracle borrow-interest factors >= 1; SetParams installs valid
+   markets. *)
+Theorem C02_hard_never_halts :
+  forall e blks s, WorldHard.hard_Inv s -> good_blocks (WorldHard.hard_M e) s blks ->
+  exists s', run_blocksG (WorldHard.hard_M e) s blks = Some s' /\ WorldHard.hard_Inv s'.
+Proof. intros e. exact (module_never_halts _ (WorldHard.hard_M_ok e)). Qed.
+Print Assumptions C02_hard_never_halts.
+
+(* the block guard of x/hard is needed: an oracle factor that encodes an APYToSPY error halts the chain; such
+   an error is reachable with an interest-rate model that Params.Validate accepts (see Proofs/WorldHard.v) *)
+Theorem C02_hard_begin_block_refuted :
+  exists e s b, WorldHard.hard_Inv s /\ m_bb (WorldHard.hard_M e) s b = Panic.
+Proof. exact WorldHard.hard_begin_block_refuted. Qed.
+Print Assumptions C02_hard_begin_block_refuted.
+
+(* x/incentive: BeginBlocker = accumulation of the global reward indexes.  Invariant = C09's.  Guard: time monotone. *)
+Theorem C02_incentive_never_halts :
+  forall e, Proofs.Incentive.env_wf e ->
+  forall blks s, Proofs.Incentive.Inv e s -> good_blocks (WorldIncentive.incentive_M e) s blks ->
+  exists s', run_blocksG (WorldIncentive.incentive_M e) s blks = Some s' /\ Proofs.Incentive.Inv e s'.
+Proof. intros e H. exact (module_never_halts _ (WorldIncentive.incentive_M_ok e H)). Qed.
+Print Assumptions C02_incentive_never_halts.
+
+(* x/pricefeed: EndBlocker = SetCurrentPricesForAllMarkets.  No guard at all. *)
+Theorem C02_pricefeed_never_halts :
+  forall e blks s, Proofs.Pricefeed.Inv s ->
+  exists s', run_blocksG (WorldPricefeed.pricefeed_M e) s blks = Some s' /\ Proofs.Pricefeed.Inv s'.
+Proof.
+  intros e blks s H. apply (module_never_halts _ (WorldPricefeed.pricefeed_M_ok e)); [exact H|].
+  apply good_blocks_True; intros; exact I.
+Qed.
+Print Assumptions C02_pricefeed_never_halts.
+
+(** * 2b. modules without blockers: the registered invariants hold at every height *)
+
+(* x/swap: "pool-records", "share-records", "pool-reserves", "pool-shares" *)
+Theorem C02_swap_invariants_every_height :
+  forall e blks s, Proofs.Swap.Inv e s ->
+  exists s', run_blocksG (WorldSwap.swap_M e) s blks = Some s' /\ Proofs.Swap.Inv e s'.
+Proof.
+  intros e blks s H. apply (module_never_halts _ (WorldSwap.swap_M_ok e)); [exact H|].
+  apply good_blocks_True; intros; exact I.
+Qed.
+Print Assumptions C02_swap_invariants_every_height.
+
+(* x/evmutil: "cosmos-coins-fully-backed" (and the unregistered backed-coins invariant, scaled).  Guard: the
+   module account signs nothing. *)
+Theorem C02_evmutil_invariants_every_height :
+  forall e, Proofs.Evmutil.env_wf e ->
+  forall blks s, Proofs.Evmutil.Inv e s -> good_blocks (WorldEvmutil.evmutil_M e) s blks ->
+  exists s', run_blocksG (WorldEvmutil.evmutil_M e) s blks = Some s' /\ Proofs.Evmutil.Inv e s'.
+Proof. intros e H. exact (module_never_halts _ (WorldEvmutil.evmutil_M_ok e H)). Qed.
+Print Assumptions C02_evmutil_invariants_every_height.
+
+(* x/savings: "deposits", "solvency".  Guard: the signer is an account other than the module account. *)
+Theorem C02_savings_invariants_every_height :
+  forall e, Proofs.Savings.senv_wf e ->
+  forall blks s, Proofs.Savings.SInv e s -> good_blocks (WorldSavings.savings_M e) s blks ->
+  exists s', run_blocksG (WorldSavings.savings_M e) s blks = Some s' /\ Proofs.Savings.SInv e s'.
+Proof. intros e H. exact (module_never_halts _ (WorldSavings.savings_M_ok e H)). Qed.
+Print Assumptions C02_savings_invariants_every_height.
+
+(* x/liquid over the x/staking model: "delegator-shares", "positive-delegation" in model form *)
+Theorem C02_liquid_invariants_every_height :
+  forall e, Proofs.Liquid.env_wf e ->
+  forall blks s, Proofs.Liquid.Inv e s ->
+  exists s', run_blocksG (WorldLiquid.liquid_M e) s blks = Some s' /\ Proofs.Liquid.Inv e s'.
+Proof.
+  intros e Hw blks s H. apply (module_never_halts _ (WorldLiquid.liquid_M_ok e Hw)); [exact H|].
+  apply good_blocks_True; intros; exact I.
+Qed.
+Print Assumptions C02_liquid_invariants_every_height.
+
+(* x/earn: "vault-records", "share-records", "vault-shares" (the savings state rides along) *)
+Theorem C02_earn_invariants_every_height :
+  forall e, Proofs.Earn.env_wf e ->
+  forall blks s, Proofs.Earn.Inv e s ->
+  exists s', run_blocksG (WorldEarn.earn_M e) s blks = Some s' /\ Proofs.Earn.Inv e s'.
+Proof.
+  intros e Hw blks s H. apply (module_never_halts _ (WorldEarn.earn_M_ok e Hw)); [exact H|].
+  apply good_blocks_True; intros; exact I.
+Qed.
+Print Assumptions C02_earn_invariants_every_height.
+
+(* x/precisebank (first form of the machine): "reserve-backs-fractions", "balance-remainder-total",
+   "valid-fractional-balances", "valid-remainder-amount", "fractional-denom-not-in-bank" *)
+Definition pb_begin (e : Model.Precisebank.env) (s : Model.Precisebank.state) (_ : unit)
+  : outcome Model.Precisebank.state unit := Ok s tt.
 
 Theorem C02_precisebank_invariants_every_height :
-  forall e, env_wf e -> forall blks s, Inv e s ->
-  exists s', run_blocks (pb_begin e) (step e) s blks = Some s' /\ Inv e s'.
+  forall e, Proofs.Precisebank.env_wf e -> forall blks s, Proofs.Precisebank.Inv e s ->
+  exists s', run_blocks (pb_begin e) (Model.Precisebank.step e) s blks = Some s' /\ Proofs.Precisebank.Inv e s'.
 Proof.
   intros e Hwf. apply blocks_no_halt.
   - intros s b H. exists s. split; [reflexivity|exact H].
-  - intros s o s' u H E. destruct u. eapply step_inv; eauto.
+  - intros s o s' u H E. destruct u. eapply Proofs.Precisebank.step_inv; eauto.
 Qed.
 Print Assumptions C02_precisebank_invariants_every_height.
+
+(** * 3. all components, in begin-blocker order *)
+
+(* [kava_env_ok E]: the environment hypotheses of the components (Proofs/WorldKava.v).  The state of the
+   product is the tuple of the component states, each over ITS OWN abstract bank (see the header). *)
+Theorem C02_kava_modules_never_halt :
+  forall E, WorldKava.kava_env_ok E ->
+  forall blks s, m_Inv (WorldKava.kava_chain E) s -> good_blocks (WorldKava.kava_chain E) s blks ->
+  exists s', run_blocksG (WorldKava.kava_chain E) s blks = Some s' /\ m_Inv (WorldKava.kava_chain E) s'.
+Proof. exact WorldKava.kava_modules_never_halt. Qed.
+Print Assumptions C02_kava_modules_never_halt.
+
+(** * 4. the order *)
+
+(* the module names of the product, in the order its begin blockers run, are exactly Kava's own modules of
+   app.mm.SetOrderBeginBlockers in source order *)
+Theorem C02_product_order_is_kava_subsequence :
+  forall E, m_names (WorldKava.kava_chain E) = kava_begin_order.
+Proof. exact WorldKava.product_order_is_kava_subsequence. Qed.
+Print Assumptions C02_product_order_is_kava_subsequence.
+
+(* the rows ./check compares with app/app.go are the rendering of the two order tables *)
+Theorem C02_blocker_rows_are_the_tables :
+  map fst blocker_rows = (keys_from "begin" 0 begin_blockers ++ keys_from "end" 0 end_blockers)%list.
+Proof. exact blocker_rows_are_the_tables. Qed.
+Print Assumptions C02_blocker_rows_are_the_tables.
+
+(* community runs before mint, mint before kavadist (the order the community+kavadist component models) *)
+Theorem C02_emissions_order_in_app :
+  match pos_of "community" begin_blocker_order 0, pos_of "mint" begin_blocker_order 0, pos_of "kavadist" begin_blocker_order 0 with
+  | Some a, Some b, Some c => Nat.ltb a b && Nat.ltb b c = true
+  | _, _, _ => False
+  end.
+Proof. exact WorldKava.emissions_order_in_app. Qed.
+Print Assumptions C02_emissions_order_in_app.
+
+(* the end-blocker list names the same Kava modules *)
+Theorem C02_end_order_same_kava_modules :
+  forall name, In name kava_begin_order <-> In name kava_end_order.
+Proof. exact WorldKava.end_order_same_kava_modules. Qed.
+Print Assumptions C02_end_order_same_kava_modules.
+
+(** * 5. non-vacuity: concrete environments and states satisfying every invariant and guard; blocks run *)
+
+(* every component: env hypotheses, the invariant on a concrete state, a concrete good block list, and the
+   observable result of running it (the statements are in the component files) *)
+Example C02_component_witnesses :
+  (WorldCommittee.committee_Inv WorldKava.committee_s0) /\
+  (m_Inv WorldEmissions.emissions_M WorldEmissions.em_cs0 /\ good_blocks WorldEmissions.emissions_M WorldEmissions.em_cs0 WorldEmissions.em_blks) /\
+  (WorldAuction.env_ok WorldAuction.rf_env /\ WorldAuction.InvW WorldAuction.rf_env WorldAuction.rf_init) /\
+  (WorldCdpLive.env_ok WorldCdp.n_env /\ WorldCdp.env_dom WorldCdp.n_env /\ WorldCdp.Inv5 WorldCdp.n_env WorldCdp.n_s0) /\
+  (Proofs.Bep3.env_wf WorldBep3.bep3_e0 /\ Proofs.Bep3.Inv WorldBep3.bep3_e0 WorldBep3.bep3_s0 /\
+     good_blocks (WorldBep3.bep3_M WorldBep3.bep3_e0) WorldBep3.bep3_s0 WorldBep3.bep3_blks) /\
+  (WorldHard.hard_Inv WorldHard.hw_init /\ good_blocks (WorldHard.hard_M WorldHard.hw_env) WorldHard.hw_init WorldHard.hw_blocks) /\
+  (Proofs.Incentive.env_wf WorldIncentive.inc_e0 /\ Proofs.Incentive.Inv WorldIncentive.inc_e0 WorldIncentive.inc_s0 /\
+     good_blocks (WorldIncentive.incentive_M WorldIncentive.inc_e0) WorldIncentive.inc_s0 WorldIncentive.inc_blks) /\
+  (Proofs.Swap.Inv WorldSwap.swap_e0 WorldSwap.swap_s0) /\
+  (Proofs.Pricefeed.Inv WorldPricefeed.pf_s0) /\
+  (Proofs.Evmutil.env_wf WorldEvmutil.evm_e0 /\ Proofs.Evmutil.Inv WorldEvmutil.evm_e0 WorldEvmutil.evm_s0 /\
+     good_blocks (WorldEvmutil.evmutil_M WorldEvmutil.evm_e0) WorldEvmutil.evm_s0 WorldEvmutil.evm_blk) /\
+  (Proofs.Savings.senv_wf WorldSavings.sav_e0 /\ Proofs.Savings.SInv WorldSavings.sav_e0 WorldSavings.sav_s0 /\
+     good_blocks (WorldSavings.savings_M WorldSavings.sav_e0) WorldSavings.sav_s0 WorldSavings.sav_blk) /\
+  (Proofs.Liquid.env_wf WorldLiquid.liq_e0 /\ Proofs.Liquid.Inv WorldLiquid.liq_e0 WorldLiquid.liq_s0) /\
+  (Proofs.Earn.env_wf WorldEarn.earn_e0 /\ Proofs.Earn.Inv WorldEarn.earn_e0 WorldEarn.earn_s0) /\
+  (Proofs.Precisebank.env_wf WorldPrecisebank.pb_e0 /\ Proofs.Precisebank.Inv WorldPrecisebank.pb_e0 WorldPrecisebank.pb_s0).
+Proof.
+  destruct WorldEmissions.emissions_nonvacuous as (Em1 & Em2 & _).
+  destruct WorldBep3.bep3_nonvacuous as (Be1 & Be2 & Be3 & _).
+  destruct WorldHard.hard_nonvacuous as (Ha1 & Ha2 & _).
+  destruct WorldIncentive.incentive_nonvacuous as (In1 & In2 & In3 & _).
+  destruct WorldSwap.swap_nonvacuous as (Sw1 & _).
+  destruct WorldPricefeed.pricefeed_nonvacuous as (Pf1 & _).
+  destruct WorldEvmutil.evmutil_nonvacuous as (Ev1 & Ev2 & Ev3 & _).
+  destruct WorldSavings.savings_nonvacuous as (Sa1 & Sa2 & Sa3 & _).
+  destruct WorldLiquid.liquid_nonvacuous as (Li1 & Li2 & _).
+  destruct WorldEarn.earn_nonvacuous as (Ea1 & Ea2 & _).
+  destruct WorldPrecisebank.precisebank_nonvacuous as (Pb1 & Pb2 & _).
+  pose proof WorldCdp.cdp_env_hypotheses_satisfiable as Cd.
+  pose proof WorldAuction.env_ok_rf as Au1. pose proof WorldAuction.rf_init_W as Au2.
+  split; [split; [repeat constructor|constructor]|].
+  exact (conj (conj Em1 Em2) (conj (conj Au1 Au2) (conj Cd (conj (conj Be1 (conj Be2 Be3)) (conj (conj Ha1 Ha2)
+        (conj (conj In1 (conj In2 In3)) (conj Sw1 (conj Pf1 (conj (conj Ev1 (conj Ev2 Ev3)) (conj (conj Sa1 (conj Sa2 Sa3))
+        (conj (conj Li1 Li2) (conj (conj Ea1 Ea2) (conj Pb1 Pb2))))))))))))).
+Qed.
+
+(* the composed statement: a concrete parameterisation satisfying [kava_env_ok] and a concrete product state
+   satisfying the product invariant *)
+Example C02_kava_chain_nonvacuous :
+  WorldKava.kava_env_ok WorldKava.kava_e0 /\ m_Inv (WorldKava.kava_chain WorldKava.kava_e0) WorldKava.kava_s0.
+Proof. exact WorldKava.kava_chain_nonvacuous. Qed.
+
+(* blocks execute in the components (observables after the run; the statements with the values are the
+   [*_nonvacuous] examples of the component files): e.g. the cdp witness seizes and auctions a cdp in its
+   third block, the auction witness closes an auction with bids, the hard witness accrues and liquidates *)
+Example C02_blocks_run :
+  (match run_blocksG (WorldAuction.auction_M WorldAuction.rf_env) (Model.Auction.run WorldAuction.rf_env WorldAuction.rf_init WorldAuction.nv_ops) [(130%Z, [])] with
+   | Some s => Model.Auction.aucs s = [] | None => False end) /\
+  (match run_blocksG (WorldSwap.swap_M WorldSwap.swap_e0) WorldSwap.swap_s0
+           [(tt, [Model.Swap.Deposit 0 2 400000 0 100000 0])] with
+   | Some s => exists p, Model.Swap.k_pool s 0%nat 2%nat = Some p | None => False end).
+Proof. split; vm_compute; [reflexivity|eexists; reflexivity]. Qed.
